@@ -132,7 +132,7 @@ class Target:
         self.name = name
         self.fns = fns
         self.prelude = prelude            # path relative to /verif
-        self.enforce = enforce or (None if enforce_none else fns[0].cname)
+        self.enforce = enforce or (None if enforce_none else fns[0].cname)      # (callable `fns`: `enforce` must be given)
         self.replace = list(replace)
         self.harness = harness            # C text of main; default: call enforced fn with nondet args
         self.loops = loops                # expected number of loop-invariant step obligations (vacuity guard)
@@ -161,6 +161,11 @@ class Target:
 
     def build(self, workdir):
         os.makedirs(workdir, exist_ok=True)
+        # a spec may give `fns` / entries of `defines` as callables: they are evaluated here, inside the target's own worker, so
+        # that building the spec does no clang work (every ./check, also with --only, builds the whole spec first)
+        if callable(self.fns):
+            self.fns = self.fns()
+        self.defines = [d() if callable(d) else d for d in self.defines]
         texts = []
         protos = {}
         loops = []
